@@ -73,6 +73,9 @@ pub struct HullObs {
     pub ccw: OpResult<bool>,
     /// Ok((indices, centres)) or the error text
     pub pivot: Option<OpResult<Result<(Vec<usize>, Vec<[f64; 2]>), String>>>,
+    /// mode 2 only: the same start ended on the first repeat (gives the state after the first
+    /// step, from which the reference pivot continues)
+    pub pivot_repeat: Option<OpResult<Result<(Vec<usize>, Vec<[f64; 2]>), String>>>,
 }
 
 pub enum Obs {
@@ -366,6 +369,88 @@ fn gen_hull(rng: &mut Rng, tier: Tier) -> Sc {
         pts.rotate_left(s);
         return Sc::Hull { label: "star-polygon".into(), pts, polygon: true, pivot: None, pivot_mode: (0, 0, 0) };
     }
+    if rng.chance(0.08) {
+        // points in drawing order along a closed curve that goes round more than once: a star
+        // polygon {n/k} in drawing order, or a spiral scan of one and a half to three turns. Every
+        // corner turns the same way, yet the trace is not a convex polygon.
+        let n = 5 + rng.below(40);
+        let c = [rng.uniform(-5.0, 5.0), rng.uniform(-5.0, 5.0)];
+        let rot = rng.uniform(0.0, std::f64::consts::TAU);
+        let r0 = rng.log_uniform(0.1, 100.0);
+        let mut pts: Vec<[f64; 2]> = Vec::new();
+        let label;
+        if rng.chance(0.5) {
+            label = "star-polygon-in-drawing-order";
+            // 2 <= k <= (n - 1) / 2: never the degenerate {n / (n/2)}, which is a line
+            let k = 2 + rng.below((n - 1) / 2 - 1).min(4);
+            for i in 0..n {
+                let a = rot + (i * k) as f64 / n as f64 * std::f64::consts::TAU;
+                let r = r0 * (1.0 + 0.02 * rng.uniform(-1.0, 1.0));
+                pts.push([c[0] + r * a.cos(), c[1] + r * a.sin()]);
+            }
+        } else {
+            label = "spiral-scan";
+            let turns = rng.uniform(1.3, 3.0);
+            let grow = rng.uniform(0.0, 0.5);
+            for i in 0..n {
+                let t = i as f64 / n as f64;
+                let a = rot + t * turns * std::f64::consts::TAU;
+                let r = r0 * (1.0 + grow * t);
+                pts.push([c[0] + r * a.cos(), c[1] + r * a.sin()]);
+            }
+        }
+        if rng.chance(0.3) {
+            pts.reverse();
+        }
+        return Sc::Hull { label: label.into(), pts, polygon: false, pivot: None, pivot_mode: (0, 0, 0) };
+    }
+    if rng.chance(0.1) {
+        // open chains and antennas: nearly every point is on the outline and the ball comes back
+        // along the other side, so a pivot path may visit points twice and be longer than the
+        // number of points
+        let n = 4 + rng.below(28);
+        let step = rng.log_uniform(0.1, 10.0);
+        let mut heading = rng.uniform(0.0, std::f64::consts::TAU);
+        let mut p = [rng.uniform(-5.0, 5.0), rng.uniform(-5.0, 5.0)];
+        let bend = rng.uniform(0.05, 0.5);
+        let mut pts: Vec<[f64; 2]> = Vec::new();
+        for _ in 0..n {
+            pts.push(p);
+            heading += rng.uniform(-bend, bend);
+            let s = step * rng.uniform(0.7, 1.3);
+            p = [p[0] + s * heading.cos(), p[1] + s * heading.sin()];
+        }
+        let mut label = "open-chain";
+        if rng.chance(0.3) {
+            // a blob at one end
+            label = "antenna";
+            let o = pts[0];
+            for _ in 0..3 + rng.below(12) {
+                pts.push([o[0] + 2.0 * step * rng.normal(), o[1] + 2.0 * step * rng.normal()]);
+            }
+        }
+        let radius = step * rng.uniform(0.8, 3.0);
+        let chain_len = n;
+        let (mut a, mut b) = (rng.below(chain_len), rng.below(chain_len));
+        if rng.chance(0.4) {
+            // along the whole chain
+            b = if rng.chance(0.5) { 0 } else { chain_len - 1 };
+        }
+        if rng.chance(0.5) {
+            // any numbering
+            let mut perm: Vec<usize> = (0..pts.len()).collect();
+            rng.shuffle(&mut perm);
+            let mut q = vec![[0.0; 2]; pts.len()];
+            for (i, &t) in perm.iter().enumerate() {
+                q[t] = pts[i];
+            }
+            pts = q;
+            a = perm[a];
+            b = perm[b];
+        }
+        let mode = if rng.chance(0.75) { 2u8 } else { 1 };
+        return Sc::Hull { label: label.into(), pts, polygon: false, pivot: Some((radius, rng.chance(0.5))), pivot_mode: (mode, a, b) };
+    }
     if rng.chance(if tier == Tier::Quick { 0.004 } else { 0.002 }) {
         // a very large cloud whose size is a whisker over a multiple of a power of two, with an
         // extreme point among the last few entries (block-wise reductions lose exactly those)
@@ -647,6 +732,98 @@ fn pivot_start_end(mode: (u8, usize, usize)) -> (hull::BallPivotStart, hull::Bal
     }
 }
 
+enum RefPivot {
+    /// the index path, starting with the start index, ending on the end index
+    Reaches(Vec<usize>),
+    Undecided,
+}
+
+/// Brute-force ball pivot, continued from the state after a first step (the ball of radius `r`
+/// centred at `c` rests on `first` and `second`, having arrived at `second`). Answers `Reaches`
+/// only if every decision on the way is clear: no coincident points, no tangent neighbour, no
+/// second contact within 1e-4 rad of the chosen one or of the current position, every ball empty
+/// with a margin, and the library's own allowance (entries <= 3 x distinct entries) respected.
+fn reference_pivot(pts: &[[f64; 2]], r: f64, ccw: bool, first: usize, second: usize, c: [f64; 2], end: usize) -> RefPivot {
+    use std::f64::consts::TAU;
+    const BAND: f64 = 1e-4;
+    let n = pts.len();
+    if first >= n || second >= n || end >= n || !(r > 0.0) {
+        return RefPivot::Undecided;
+    }
+    let sub = |a: [f64; 2], b: [f64; 2]| [a[0] - b[0], a[1] - b[1]];
+    let norm = |a: [f64; 2]| (a[0] * a[0] + a[1] * a[1]).sqrt();
+    let empty = |c: [f64; 2]| pts.iter().all(|q| norm(sub(*q, c)) >= r * (1.0 - 1e-7));
+    let mut path = vec![first, second];
+    let mut distinct: BTreeSet<usize> = path.iter().copied().collect();
+    let (mut prev, mut w, mut c) = (first, second, c);
+    if !empty(c) || (norm(sub(c, pts[w])) - r).abs() > 1e-6 * r {
+        return RefPivot::Undecided;
+    }
+    loop {
+        if w == end {
+            return RefPivot::Reaches(path);
+        }
+        if path.len() > 3 * distinct.len() || path.len() > 3 * n + 8 {
+            return RefPivot::Undecided;
+        }
+        let pw = pts[w];
+        let cur = sub(c, pw);
+        let mut cands: Vec<(f64, usize, [f64; 2])> = Vec::new();
+        for (q, pq) in pts.iter().enumerate() {
+            if q == w {
+                continue;
+            }
+            let dv = sub(*pq, pw);
+            let d = norm(dv);
+            if d == 0.0 {
+                return RefPivot::Undecided;
+            }
+            if d > 2.0 * r * (1.0 + 1e-7) {
+                continue;
+            }
+            if d > 2.0 * r * (1.0 - 1e-7) {
+                return RefPivot::Undecided;
+            }
+            let mid = [pw[0] + dv[0] / 2.0, pw[1] + dv[1] / 2.0];
+            let h = (r * r - d * d / 4.0).max(0.0).sqrt();
+            let perp = [-dv[1] / d, dv[0] / d];
+            for sgn in [1.0, -1.0] {
+                let x = [mid[0] + sgn * h * perp[0], mid[1] + sgn * h * perp[1]];
+                let to = sub(x, pw);
+                let mut ang = (cur[0] * to[1] - cur[1] * to[0]).atan2(cur[0] * to[0] + cur[1] * to[1]);
+                if !ccw {
+                    ang = -ang;
+                }
+                if ang < 0.0 {
+                    ang += TAU;
+                }
+                if ang < BAND || ang > TAU - BAND {
+                    // the position the ball is in now (its contact with the point it came from),
+                    // or something indistinguishable from it
+                    if q == prev && norm(sub(x, c)) < 1e-6 * r {
+                        continue;
+                    }
+                    return RefPivot::Undecided;
+                }
+                cands.push((ang, q, x));
+            }
+        }
+        cands.sort_by(|a, b| a.0.partial_cmp(&b.0).unwrap());
+        let Some(&(a0, q, x)) = cands.first() else { return RefPivot::Undecided };
+        if cands.len() >= 2 && cands[1].0 - a0 < BAND {
+            return RefPivot::Undecided;
+        }
+        if !empty(x) {
+            return RefPivot::Undecided;
+        }
+        prev = w;
+        w = q;
+        c = x;
+        path.push(w);
+        distinct.insert(w);
+    }
+}
+
 fn cross2(o: [f64; 2], a: [f64; 2], b: [f64; 2]) -> f64 {
     (a[0] - o[0]) * (b[1] - o[1]) - (a[1] - o[1]) * (b[0] - o[0])
 }
@@ -851,6 +1028,20 @@ impl Property for C15 {
                         .map_err(|e| e.to_string())
                     })
                 });
+                let pivot_repeat = match (pivot, pivot_mode.0) {
+                    (Some((radius, ccw)), 2) => Some(sim.op("hull::ball_pivot_with_centers_2d", b, || {
+                        hull::ball_pivot_with_centers_2d(
+                            &p2,
+                            start,
+                            hull::BallPivotEnd::EndOnRepeat,
+                            if *ccw { AngleDir::Ccw } else { AngleDir::Cw },
+                            *radius,
+                        )
+                        .map(|(idx, cs)| (idx, cs.iter().map(|c| [c.x, c.y]).collect()))
+                        .map_err(|e| e.to_string())
+                    })),
+                    _ => None,
+                };
                 let hull_idx = sim.op("hull::convex_hull_2d", b, || hull::convex_hull_2d(&p2));
                 let far = sim.op("hull::farthest_pair_indices", b, || {
                     parry2d_f64::shape::ConvexPolygon::from_convex_hull(&p2).map(|poly| {
@@ -859,7 +1050,7 @@ impl Property for C15 {
                     })
                 });
                 let ccw = sim.op("hull::point_order_direction", b, || matches!(hull::point_order_direction(&p2), AngleDir::Ccw));
-                Obs::Hull(Box::new(HullObs { hull: hull_idx, far, ccw, pivot: pivot_obs }))
+                Obs::Hull(Box::new(HullObs { hull: hull_idx, far, ccw, pivot: pivot_obs, pivot_repeat }))
             }
         }
     }
@@ -1045,9 +1236,30 @@ impl Property for C15 {
                         match po {
                             OpResult::Panic(m) => out.push(Violation::new("panic", op, m.clone(), &[vi])),
                             OpResult::Budget(_) => {}
-                            OpResult::Done(Err(_)) => stats.bump("ball-pivot:returned-err"),
+                            OpResult::Done(Err(e)) => {
+                                stats.bump("ball-pivot:returned-err");
+                                // an error is the right answer when no path exists or the walk
+                                // really loops; it is not when the pivot, continued by brute force
+                                // from the first step the library itself reports, reaches the end
+                                // index over clear (tie-free, empty-ball) steps within the
+                                // library's own loop allowance
+                                if let (Sc::Hull { pivot: Some((_, ccw)), pivot_mode, .. }, Some(OpResult::Done(Ok((ridx, rc))))) = (sc, &o.pivot_repeat) {
+                                    if pivot_mode.0 == 2 && ridx.len() >= 2 && !rc.is_empty() {
+                                        match reference_pivot(pts, *radius, *ccw, ridx[0], ridx[1], rc[0], pivot_mode.2) {
+                                            RefPivot::Reaches(path) => {
+                                                stats.bump("probe:ball-pivot-err-judged-by-reference");
+                                                out.push(Violation::new("ball-pivot-no-answer", op, format!("returned the error {:?} although pivoting from {} reaches the end index {} over {} clear steps (path {:?})", e, ridx[0], pivot_mode.2, path.len() - 1, &path[..path.len().min(40)]), &[vi]));
+                                            }
+                                            RefPivot::Undecided => stats.bump("ball-pivot:err-not-judged"),
+                                        }
+                                    }
+                                }
+                            }
                             OpResult::Done(Ok((idx, centres))) => {
                                 stats.bump("companion:ball-pivot");
+                                if idx.len() > pts.len() {
+                                    stats.bump("probe:ball-pivot-path-longer-than-point-count");
+                                }
                                 stats.add("companion:ball-pivot-steps", centres.len() as u64);
                                 let d2 = |a: [f64; 2], b: [f64; 2]| ((a[0] - b[0]).powi(2) + (a[1] - b[1]).powi(2)).sqrt();
                                 if idx.iter().any(|&i| i >= pts.len()) || (centres.len() + 1 != idx.len() && !idx.is_empty()) {
